@@ -1252,3 +1252,26 @@ impl HalfConnection {
         self.flush_id = self.flush_id.wrapping_add(1);
     }
 }
+
+/// The limits a connection was set up with, as the half connection holds them (verification builds only).
+#[cfg(uflow_verif)]
+#[derive(Clone,Debug,PartialEq)]
+pub struct VerifLimits {
+    /// receive allocation of the peer as the sender understands it (rounded up to whole fragments)
+    pub tx_alloc_limit: usize,
+    /// local receive allocation (rounded up to whole fragments)
+    pub rx_alloc_limit: usize,
+    /// ceiling of the send rate
+    pub max_send_rate: u32,
+}
+
+#[cfg(uflow_verif)]
+impl HalfConnection {
+    pub fn verif_limits(&self) -> VerifLimits {
+        VerifLimits {
+            tx_alloc_limit: self.packet_sender.verif_max_alloc(),
+            rx_alloc_limit: self.packet_receiver.verif_max_alloc(),
+            max_send_rate: self.send_rate_comp.verif_state().max_send_rate,
+        }
+    }
+}
